@@ -110,7 +110,13 @@ def emit_unit(uspec, log=None):
             hit = 0
             for f in fns:
                 c = em.fn_cname(f)
-                if rx and not re.search(rx, c):
+                if rx and rx.startswith('sig:'):
+                    # select an overload / instantiation by its parameter types (stable under reordering of instantiations)
+                    sig = ', '.join(cxxast.qt(p) for p in cxxast.params_of(f))
+                    if not re.search(rx[4:], sig):
+                        continue
+                    em.__dict__.setdefault('sig_selected', {}).setdefault(rx, set()).add(c)
+                elif rx and not re.search(rx, c):
                     continue
                 em.want(f)
                 hit += 1
@@ -202,7 +208,10 @@ def merge_instantiations(em, uspec):
         if len(e) > 2 and e[2]:
             k = 0
             for c in (byq.get(e[0]) or byq.get(strip_targs(e[0]), [])):
-                if e[1] and not re.search(e[1], c):
+                if e[1] and e[1].startswith('sig:'):
+                    if c not in getattr(em, 'sig_selected', {}).get(e[1], ()):
+                        continue
+                elif e[1] and not re.search(e[1], c):
                     continue
                 k += 1
                 nm = e[2]
